@@ -9,7 +9,10 @@ import (
 	"net/url"
 	"os"
 	"path/filepath"
+	"regexp"
+	"sort"
 	"strings"
+	"sync"
 
 	"github.com/tmpim/casket/caskethttp/httpserver"
 	"github.com/tmpim/casket/caskethttp/internalsrv"
@@ -32,8 +35,12 @@ type c03In struct {
 	Prot   string   `json:"prot,omitempty"`
 	Extras []string `json:"extras,omitempty"`
 	Target string   `json:"target,omitempty"`
-	Creds  string   `json:"creds,omitempty"` // none | wrong | right
+	Creds  string   `json:"creds,omitempty"` // none | wrong | right (rule 0) | right1 | right2 (rule 1, 2)
 	AE     string   `json:"ae,omitempty"`
+	XReq   string   `json:"xreq,omitempty"` // X-Accel-Redirect REQUEST header sent by the client
+	// accel (internalsrv.Internal over a scripted inner handler)
+	Script [][2]string `json:"script,omitempty"`
+	W0     string      `json:"w0,omitempty"`
 }
 
 const (
@@ -51,10 +58,41 @@ const (
 	tAPI    = "TOKAPIq12z"
 	tSEXT   = "TOKSEXTq13z"
 	tARCP   = "TOKARCPq14z"
+	tDEEP   = "TOKDEEPq15z"
+	tDX     = "TOKDXq16z"
 )
+
+// canonical name of the resource each planted token is content of (a listing is the content of
+// the directory, written as the matcher spells a directory: with its trailing slash)
+var c03TokenRes = map[string]string{
+	tSF: "/secret/f.txt", tSFGZ: "/secret/f.txt.gz", tSIDX: "/secret/index.html", tSG: "/secret/sub/g.md",
+	tOPEN: "/secret/pub/open.txt", tSNAME: "/secret/", tSN: "/secret/" + tSNAME + ".txt", tSEXT: "/secret/page.html",
+	tARCP: "/arc/priv/p.txt", tIH: "/int/h.txt", tIIDX: "/int/index.html",
+	tDEEP: "/secret/pub/deep/d.txt", tDX: "/secret/pub/deep/x/y.txt",
+}
+var c03TokenOrder = []string{tSF, tSFGZ, tSIDX, tSG, tOPEN, tSNAME, tSN, tSEXT, tARCP, tIH, tIIDX, tDEEP, tDX}
 
 var c03Root string
 var c03Backend *httptest.Server
+var c03BackMu sync.Mutex
+var c03BackSeen []string // request paths the backend was asked for (reset before each request)
+var c03BackEmitted bool  // the backend put an X-Accel-Redirect header on a response
+
+const xar = "X-Accel-Redirect"
+
+// what the backend answers for path p: the X-Accel-Redirect response header value ("" = none;
+// "ECHO" = it copies the client's own X-Accel-Redirect request header)
+func c03Emit(p string) string {
+	switch {
+	case strings.HasPrefix(p, "/accel/"):
+		return p[len("/accel"):]
+	case p == "/loop":
+		return "/loop"
+	case strings.HasPrefix(p, "/echo"):
+		return "ECHO"
+	}
+	return ""
+}
 
 func c03Fixture() string {
 	if c03Root != "" {
@@ -80,30 +118,127 @@ func c03Fixture() string {
 		"secret/page.html":           tSEXT,
 		"arc/open.txt":               "nothing secret here",
 		"arc/priv/p.txt":             tARCP,
+		"secret/pub/deep/d.txt":      tDEEP,
+		"secret/pub/deep/x/y.txt":    tDX,
 		"int/h.txt":                  tIH,
 		"int/index.html":             tIIDX,
 	})
 	c03Root = root
 	c03Backend = httptest.NewServer(http.HandlerFunc(func(w http.ResponseWriter, r *http.Request) {
-		fmt.Fprintf(w, "backend says %s for %s", tAPI, r.URL.Path)
+		c03BackMu.Lock()
+		c03BackSeen = append(c03BackSeen, r.URL.Path)
+		v := c03Emit(r.URL.Path)
+		if v == "ECHO" {
+			v = r.Header.Get(xar)
+		}
+		if v != "" {
+			c03BackEmitted = true
+			w.Header().Set(xar, v)
+		}
+		c03BackMu.Unlock()
+		fmt.Fprintf(w, "backend says %s for <<%s>>", tAPI, r.URL.Path)
 	}))
 	return root
 }
 
-// protection configs: directive text and the tokens it protects
-var c03Prots = map[string]struct {
-	text   string
-	tokens []string
-}{
-	"auth-dir":     {"basicauth u p {\n /secret\n /arc/priv\n}", []string{tSF, tSFGZ, tSIDX, tSG, tOPEN, tSNAME, tSN, tSEXT, tARCP}},
-	"auth-dir-ex":  {"basicauth u p {\n /secret\n exclude /secret/pub\n}", []string{tSF, tSFGZ, tSIDX, tSG, tSNAME, tSN, tSEXT}},
-	"auth-slash":   {"basicauth /secret/ u p", []string{tSF, tSFGZ, tSIDX, tSG, tOPEN, tSNAME, tSN, tSEXT}},
-	"internal":     {"internal /int", []string{tIH, tIIDX}},
-	"auth-file":    {"basicauth /secret/f.txt u p", []string{tSF}},
-	"auth-index":   {"basicauth /secret/index.html u p", []string{tSIDX}},
-	"auth-api":     {"basicauth /api u p", []string{tAPI}},
-	"auth-two":     {"basicauth /secret u p {\n exclude /secret/pub\n}\nbasicauth /secret/pub/open.txt v q", []string{tSF, tSFGZ, tSIDX, tSG, tSNAME, tSN, tSEXT, tOPEN}},
+// protection configs: directive text, and the same as data (what the Coq spec clause is given)
+type c03ProtRule struct {
+	res, excl []string
+	user, pw  string
 }
+type c03Prot struct {
+	text   string
+	rules  []c03ProtRule
+	ipaths []string
+}
+
+var c03Prots = map[string]c03Prot{
+	"auth-dir":    {"basicauth u p {\n /secret\n /arc/priv\n}", []c03ProtRule{{[]string{"/secret", "/arc/priv"}, nil, "u", "p"}}, nil},
+	"auth-dir-ex": {"basicauth u p {\n /secret\n exclude /secret/pub\n}", []c03ProtRule{{[]string{"/secret"}, []string{"/secret/pub"}, "u", "p"}}, nil},
+	"auth-slash":  {"basicauth /secret/ u p", []c03ProtRule{{[]string{"/secret/"}, nil, "u", "p"}}, nil},
+	"internal":    {"internal /int", nil, []string{"/int"}},
+	"auth-file":   {"basicauth /secret/f.txt u p", []c03ProtRule{{[]string{"/secret/f.txt"}, nil, "u", "p"}}, nil},
+	"auth-index":  {"basicauth /secret/index.html u p", []c03ProtRule{{[]string{"/secret/index.html"}, nil, "u", "p"}}, nil},
+	"auth-gz":     {"basicauth /secret/f.txt.gz u p", []c03ProtRule{{[]string{"/secret/f.txt.gz"}, nil, "u", "p"}}, nil},
+	"auth-api":    {"basicauth /api u p", []c03ProtRule{{[]string{"/api"}, nil, "u", "p"}}, nil},
+	"auth-two": {"basicauth /secret u p {\n exclude /secret/pub\n}\nbasicauth /secret/pub/open.txt v q",
+		[]c03ProtRule{{[]string{"/secret"}, []string{"/secret/pub"}, "u", "p"}, {[]string{"/secret/pub/open.txt"}, nil, "v", "q"}}, nil},
+	// three rules, each nested inside the previous one's exclusion
+	"auth-nest3": {"basicauth /secret u p {\n exclude /secret/pub\n}\nbasicauth /secret/pub v q {\n exclude /secret/pub/deep\n}\nbasicauth /secret/pub/deep/x w r",
+		[]c03ProtRule{{[]string{"/secret"}, []string{"/secret/pub"}, "u", "p"}, {[]string{"/secret/pub"}, []string{"/secret/pub/deep"}, "v", "q"}, {[]string{"/secret/pub/deep/x"}, nil, "w", "r"}}, nil},
+	// the same rules written innermost first
+	"auth-nest3r": {"basicauth /secret/pub/deep/x w r\nbasicauth /secret/pub v q {\n exclude /secret/pub/deep\n}\nbasicauth /secret u p {\n exclude /secret/pub\n}",
+		[]c03ProtRule{{[]string{"/secret/pub/deep/x"}, nil, "w", "r"}, {[]string{"/secret/pub"}, []string{"/secret/pub/deep"}, "v", "q"}, {[]string{"/secret"}, []string{"/secret/pub"}, "u", "p"}}, nil},
+	// overlapping scopes without exclusions: either rule's credentials open the inner scope
+	"auth-overlap": {"basicauth /secret u p\nbasicauth /secret/sub v q",
+		[]c03ProtRule{{[]string{"/secret"}, nil, "u", "p"}, {[]string{"/secret/sub"}, nil, "v", "q"}}, nil},
+	// basicauth and internal together, internal with two locations
+	"auth-int": {"basicauth /secret u p {\n exclude /secret/pub\n}\ninternal /int\ninternal /secret/pub/deep",
+		[]c03ProtRule{{[]string{"/secret"}, []string{"/secret/pub"}, "u", "p"}}, []string{"/int", "/secret/pub/deep"}},
+}
+
+// which rule's credentials does the request carry
+func c03CredPair(creds string) (string, string, bool) {
+	switch creds {
+	case "right":
+		return "u", "p", true
+	case "right1":
+		return "v", "q", true
+	case "right2":
+		return "w", "r", true
+	case "wrong":
+		return "u", "nope", true
+	}
+	return "", "", false
+}
+
+func c03RuleTerms(prot c03Prot, creds string) string {
+	user, pw, _ := c03CredPair(creds)
+	var rs []string
+	for _, ru := range prot.rules {
+		ok := user == ru.user && pw == ru.pw
+		rs = append(rs, fmt.Sprintf("{| r_resources := %s; r_exclude := %s; r_creds_ok := %s |}", cStrList(ru.res), cStrList(ru.excl), cBool(ok)))
+	}
+	return cList(rs)
+}
+
+// Go-side copy of the spec clause, used only to give a disclosure its Sig (the verdict is Coq's)
+func c03Under(f, base string) bool {
+	if base == "/" || base == "" {
+		return true
+	}
+	return strings.HasPrefix(strings.ToLower(f), strings.ToLower(base))
+}
+func c03Violates(prot c03Prot, creds string, opt bool, f string) bool {
+	user, pw, _ := c03CredPair(creds)
+	protected, satisfied := false, false
+	for _, ru := range prot.rules {
+		in := false
+		for _, r := range ru.res {
+			in = in || c03Under(f, r)
+		}
+		for _, e := range ru.excl {
+			if c03Under(f, e) {
+				in = false
+			}
+		}
+		if in {
+			protected = true
+			satisfied = satisfied || (user == ru.user && pw == ru.pw)
+		}
+	}
+	if !opt && protected && !satisfied {
+		return true
+	}
+	for _, ip := range prot.ipaths {
+		if c03Under(f, ip) {
+			return true
+		}
+	}
+	return false
+}
+
+var c03BackRe = regexp.MustCompile(regexp.QuoteMeta("backend says "+tAPI+" for <<") + "([^>]*)>>")
 
 func c03Run(in0 interface{}) Result {
 	in := in0.(*c03In)
@@ -165,7 +300,10 @@ func c03Run(in0 interface{}) Result {
 		return Result{Term: cApp("CInternal", "false", cStr(in.P), cStrList(in.Paths), cBool(blocked)), Obs: status, Sig: "internal", Direct: direct, Nontrivial: blocked, Class: fmt.Sprintf("internal:%v", blocked)}
 	case "site":
 		root := c03Fixture()
-		prot := c03Prots[in.Prot]
+		prot, okp := c03Prots[in.Prot]
+		if !okp {
+			return Result{Term: "(CSite false false)", Obs: "unknown prot", Class: "site:unknown-prot", Sig: "site:unknown-prot"}
+		}
 		body := "root " + root + "\n" + prot.text + "\n"
 		for _, e := range in.Extras {
 			body += strings.ReplaceAll(e, "BACKEND", c03Backend.URL) + "\n"
@@ -174,50 +312,187 @@ func c03Run(in0 interface{}) Result {
 		if err != nil {
 			return Result{Term: "(CSite false false)", Obs: "start error: " + err.Error(), Class: "site:start-error", Sig: "site:start-error"}
 		}
-		hdr := map[string]string{}
-		switch in.Creds {
-		case "right":
-			user, pw := "u", "p"
-			hdr["Authorization"] = "Basic " + base64.StdEncoding.EncodeToString([]byte(user+":"+pw))
-		case "wrong":
-			hdr["Authorization"] = "Basic " + base64.StdEncoding.EncodeToString([]byte("u:nope"))
-		}
-		if in.AE != "" {
-			hdr["Accept-Encoding"] = in.AE
-		}
-		resp := doRaw(st.addr, in.Method, in.Target, hdr, nil)
+		resp, _, emitted := c03Do(st.addr, in)
 		views := decodedViews(resp.Body)
-		var leaked []string
-		for _, tok := range prot.tokens {
+		var leaked, leakedRes []string
+		for _, tok := range c03TokenOrder {
 			if containsAny(views, tok) {
 				leaked = append(leaked, tok)
+				leakedRes = append(leakedRes, c03TokenRes[tok])
 			}
 		}
-		unauth := in.Creds != "right" || in.Prot == "internal"
-		if in.Method == "OPTIONS" && in.Prot != "internal" {
-			unauth = false // documented unauthenticated pass-through of OPTIONS (excluded by the property)
-		}
-		if in.Prot == "auth-two" && in.Creds == "right" {
-			// credentials u:p are valid for rule 1 only; tOPEN is protected by rule 2 (v:q)
-			var l2 []string
-			for _, t := range leaked {
-				if t == tOPEN {
-					l2 = append(l2, t)
-				}
+		for _, v := range views {
+			for _, m := range c03BackRe.FindAllSubmatch(v, -1) {
+				leaked = append(leaked, tAPI)
+				leakedRes = append(leakedRes, string(m[1]))
 			}
-			leaked = l2
-			unauth = in.Method != "OPTIONS"
 		}
-		disclosed := len(leaked) > 0
+		opt := in.Method == "OPTIONS"
+		checked := prot
+		if emitted {
+			// a backend answered with X-Accel-Redirect: whatever follows is deliberate internal access
+			checked = c03Prot{}
+		}
+		var viol []string
+		for k, f := range leakedRes {
+			if c03Violates(checked, in.Creds, opt, f) {
+				viol = append(viol, leaked[k])
+			}
+		}
 		sig := "site:" + in.Prot
-		if disclosed && unauth {
-			sig = c03Sig(in, leaked, resp.Header.Get("Content-Type"))
+		if len(viol) > 0 {
+			sig = c03Sig(in, viol, resp.Header.Get("Content-Type"))
 		}
-		return Result{Term: cApp("CSite", cBool(unauth), cBool(disclosed)), Obs: map[string]interface{}{"status": resp.Status, "leaked": leaked, "len": len(resp.Body), "err": resp.Err, "location": resp.Header.Get("Location")},
-			Sig: sig, Nontrivial: resp.Status != 404 && resp.Status != 0, Key: body + "|" + in.Method + in.Target + in.Creds + in.AE,
+		return Result{Term: cApp("CDisc", "false", cBool(opt), c03RuleTerms(checked, in.Creds), cStrList(checked.ipaths), cStrList(leakedRes)),
+			Obs: map[string]interface{}{"status": resp.Status, "leaked": leaked, "resources": leakedRes, "violating": viol, "accel": emitted, "len": len(resp.Body), "err": resp.Err, "location": resp.Header.Get("Location")},
+			Sig: sig, Nontrivial: resp.Status != 404 && resp.Status != 0, Key: body + "|" + in.Method + in.Target + in.Creds + in.AE + in.XReq,
 			Class: fmt.Sprintf("site:%s:%s:%d", in.Prot, in.Creds, resp.Status)}
+	case "chain":
+		// canonical-order site: rewriters + protection + `proxy / BACKEND`; the final path is measured
+		// on the twin site without the protection directives
+		root := c03Fixture()
+		prot, okp := c03Prots[in.Prot]
+		if !okp {
+			return Result{Term: "(CSite false false)", Obs: "unknown prot", Class: "chain:unknown-prot", Sig: "chain:unknown-prot"}
+		}
+		tail := ""
+		for _, e := range in.Extras {
+			tail += strings.ReplaceAll(e, "BACKEND", c03Backend.URL) + "\n"
+		}
+		tail += "proxy / " + c03Backend.URL + "\n"
+		twin, err := getSite("root " + root + "\n" + tail)
+		if err != nil {
+			return Result{Term: "(CSite false false)", Obs: "start error: " + err.Error(), Class: "chain:start-error", Sig: "chain:start-error"}
+		}
+		_, seenTwin, _ := c03Do(twin.addr, in)
+		if len(seenTwin) == 0 {
+			return Result{Term: "(CSite false false)", Obs: "twin site: backend not reached", Class: "chain:no-final-path", Sig: "chain:no-final-path"}
+		}
+		pfinal := seenTwin[0]
+		st, err := getSite("root " + root + "\n" + prot.text + "\n" + tail)
+		if err != nil {
+			return Result{Term: "(CSite false false)", Obs: "start error: " + err.Error(), Class: "chain:start-error", Sig: "chain:start-error"}
+		}
+		resp, seen, _ := c03Do(st.addr, in)
+		// the script the backend follows, for the paths involved
+		var script []string
+		done := map[string]bool{}
+		for _, t := range append([]string{pfinal}, seen...) {
+			if v := c03Emit(t); v != "" && !done[t] {
+				done[t] = true
+				script = append(script, cPair(cStr(t), cStr(v)))
+			}
+		}
+		status := resp.Status
+		if status == 200 && len(seen) == 0 {
+			status = 0 // answered by something else than the chain under test
+		}
+		return Result{Term: cApp("CChain", "false", cBool(in.Method == "OPTIONS"), cStr(pfinal), c03RuleTerms(prot, in.Creds), cBool(len(prot.ipaths) > 0),
+			cStrList(prot.ipaths), cList(script), cStr(in.XReq), cN(uint64(status)), cStrList(seen)),
+			Obs: map[string]interface{}{"status": resp.Status, "final": pfinal, "backend_saw": seen, "err": resp.Err},
+			Sig: "chain:" + in.Prot, Nontrivial: pfinal != in.Target || resp.Status == 401 || resp.Status == 404 || len(seen) > 1,
+			Class: fmt.Sprintf("chain:%s:%d:%d", in.Prot, resp.Status, len(seen))}
+	case "accel":
+		var seen []string
+		script := map[string]string{}
+		for _, e := range in.Script {
+			if _, dup := script[e[0]]; !dup {
+				script[e[0]] = e[1]
+			}
+		}
+		h := internalsrv.Internal{Paths: in.Paths, Next: handlerFunc(func(w http.ResponseWriter, r *http.Request) (int, error) {
+			seen = append(seen, r.URL.Path)
+			if v, ok := script[r.URL.Path]; ok {
+				if v == "ECHO" {
+					v = r.Header.Get(xar)
+				}
+				w.Header().Set(xar, v)
+			}
+			w.Write([]byte("x"))
+			return 200, nil
+		})}
+		req := &http.Request{Method: "GET", URL: &url.URL{Path: in.P}, Header: http.Header{}}
+		if in.XReq != "" {
+			req.Header.Set(xar, in.XReq)
+		}
+		rec := httptest.NewRecorder()
+		if in.W0 != "" {
+			rec.Header().Set(xar, in.W0)
+		}
+		status, _ := h.ServeHTTP(rec, req)
+		var sc []string
+		for _, e := range in.Script {
+			sc = append(sc, cPair(cStr(e[0]), cStr(e[1])))
+		}
+		direct := ""
+		if rec.Header().Get(xar) != "" && status != 404 {
+			direct = "X-Accel-Redirect left in the response headers: " + rec.Header().Get(xar)
+		}
+		return Result{Term: cApp("CAccel", "false", cStrList(in.Paths), cList(sc), cStr(in.W0), cStr(in.P), cStr(in.XReq), cN(uint64(status)), cStrList(seen)),
+			Obs: map[string]interface{}{"status": status, "saw": seen}, Sig: "accel", Direct: direct, Nontrivial: len(seen) != 1,
+			Class: fmt.Sprintf("accel:%d:%d", status, len(seen))}
+	case "assigners":
+		files := c03Assigners()
+		return Result{Term: cApp("CAssigners", cStrList(files)), Obs: files, Sig: "assigners", Nontrivial: true, Class: "assigners"}
 	}
 	panic("bad kind")
+}
+
+// c03Do sends the case's request; returns the response, the paths the backend saw and whether the
+// backend emitted an X-Accel-Redirect response header
+func c03Do(addr string, in *c03In) (rawResp, []string, bool) {
+	hdr := map[string]string{}
+	if user, pw, ok := c03CredPair(in.Creds); ok {
+		hdr["Authorization"] = "Basic " + base64.StdEncoding.EncodeToString([]byte(user+":"+pw))
+	}
+	if in.AE != "" {
+		hdr["Accept-Encoding"] = in.AE
+	}
+	if in.XReq != "" {
+		hdr[xar] = in.XReq
+	}
+	c03BackMu.Lock()
+	c03BackSeen, c03BackEmitted = nil, false
+	c03BackMu.Unlock()
+	resp := doRaw(addr, in.Method, in.Target, hdr, nil)
+	c03BackMu.Lock()
+	defer c03BackMu.Unlock()
+	return resp, append([]string(nil), c03BackSeen...), c03BackEmitted
+}
+
+var c03AssignRe = regexp.MustCompile(`URL\.(Path|RawPath)\s*(=[^=]|\+=)|\br\.URL\s*=[^=]`)
+
+// c03Assigners: non-test Go files under caskethttp/ that assign a request's URL path
+func c03Assigners() []string {
+	repo := os.Getenv("VERIF_REPO")
+	if repo == "" {
+		repo = "/repo"
+	}
+	base := filepath.Join(repo, "caskethttp")
+	var out []string
+	filepath.Walk(base, func(p string, info os.FileInfo, err error) error {
+		if err != nil || info.IsDir() || !strings.HasSuffix(p, ".go") || strings.HasSuffix(p, "_test.go") {
+			return nil
+		}
+		b, err := os.ReadFile(p)
+		if err != nil {
+			return nil
+		}
+		for _, line := range strings.Split(string(b), "\n") {
+			t := strings.TrimSpace(line)
+			if strings.HasPrefix(t, "//") {
+				continue
+			}
+			if c03AssignRe.MatchString(t) {
+				rel, _ := filepath.Rel(base, p)
+				out = append(out, filepath.ToSlash(rel))
+				break
+			}
+		}
+		return nil
+	})
+	sort.Strings(out)
+	return out
 }
 
 // c03Sig classifies a disclosure by its mechanism (for known findings)
@@ -233,7 +508,7 @@ func c03Sig(in *c03In, leaked []string, ctype string) string {
 	switch {
 	case strings.HasPrefix(ctype, "application/zip") || strings.HasPrefix(ctype, "application/tar"):
 		return "site:disclosure:browse-archive-of-unprotected-ancestor"
-	case in.Prot == "auth-index" || in.Prot == "auth-file":
+	case in.Prot == "auth-index" || in.Prot == "auth-file" || in.Prot == "auth-gz":
 		return "site:disclosure:file-scope:" + in.Prot
 	case has("rewrite /alias2 secret") && strings.Contains(strings.ToLower(in.Target), "alias2"):
 		return "site:disclosure:unrooted-rewrite-target"
@@ -243,10 +518,11 @@ func c03Sig(in *c03In, leaked []string, ctype string) string {
 
 func c03Gen(r *Rand, tier string) []interface{} {
 	var out []interface{}
-	nM, nA, nS := 1500, 700, 900
+	nM, nA, nS, nC, nX := 1500, 700, 1500, 900, 700
 	if tier == "thorough" {
-		nM, nA, nS = 30000, 10000, 9000
+		nM, nA, nS, nC, nX = 30000, 10000, 15000, 9000, 8000
 	}
+	out = append(out, &c03In{Kind: "assigners"})
 	segs := []string{"a", "b", "A", "secret", "pub", ".", "..", "", "x.y", "B"}
 	bases := []string{"/", "", "/a", "/a/", "/a/b", "/A", "/secret", "/secret/", "/secret/pub", "//a", "/a/./b", "/a/../b", "a", "/x.y", "/a//b/", "/."}
 	mkp := func() string {
@@ -314,7 +590,13 @@ func c03Gen(r *Rand, tier string) []interface{} {
 		"rewrite /alias /secret/f.txt",
 		"rewrite /alias2 secret/f.txt",
 		"rewrite {\n regexp ^/re/(.*)$\n to /secret/{1}\n}",
+		"rewrite {\n regexp ^/strip/(.*)$\n to /{1}\n}",
+		"rewrite {\n regexp ^/up/(.*)$\n to /pub/../{1}\n}",
+		"rewrite /ialias /int/h.txt",
 		"tryfiles /tf1 /secret/f.txt",
+		"tryfiles {path} {path}.txt /pub/a.txt",
+		"proxy /accel BACKEND",
+		"proxy /echo BACKEND",
 		"ext .txt .html",
 		"index index.html h.txt",
 		"gzip",
@@ -329,8 +611,11 @@ func c03Gen(r *Rand, tier string) []interface{} {
 	}
 	targetsFor := map[string][]string{
 		"secret": {"/secret/f.txt", "/secret/", "/secret", "/secret/index.html", "/secret/sub/g.md", "/secret/pub/open.txt", "/secret/sub/", "/secret/f", "/secret/page",
-			"/alias", "/alias2", "/re/f.txt", "/re/sub/g.md", "/tf1", "/", "/?archive=zip", "/?archive=tar", "/secret/?archive=zip", "/secret/sub/?archive=tar", "/pub/?archive=zip", "/secret/" + tSNAME + ".txt", "/arc/", "/arc/?archive=zip", "/arc/?archive=tar", "/arc/priv/p.txt", "/arc/priv/", "/arc/priv/?archive=tar"},
-		"int": {"/int/h.txt", "/int/", "/int", "/int/index.html", "/?archive=zip", "/int/?archive=tar", "/INT/h.txt"},
+			"/alias", "/alias2", "/re/f.txt", "/re/sub/g.md", "/tf1", "/", "/?archive=zip", "/?archive=tar", "/secret/?archive=zip", "/secret/sub/?archive=tar", "/pub/?archive=zip", "/secret/" + tSNAME + ".txt", "/arc/", "/arc/?archive=zip", "/arc/?archive=tar", "/arc/priv/p.txt", "/arc/priv/", "/arc/priv/?archive=tar",
+			"/secret/pub/", "/secret/pub/?archive=zip", "/secret/pub/deep/d.txt", "/secret/pub/deep/", "/secret/pub/deep/?archive=tar", "/secret/pub/deep/x/y.txt", "/secret/pub/deep/x/",
+			"/strip/secret/f.txt", "/strip/secret/pub/deep/x/y.txt", "/up/secret/f.txt", "/up/secret/sub/g.md", "/re/pub/deep/x/y.txt", "/re/../secret/f.txt"},
+		"int": {"/int/h.txt", "/int/", "/int", "/int/index.html", "/?archive=zip", "/int/?archive=tar", "/INT/h.txt", "/ialias", "/strip/int/h.txt", "/up/int/h.txt",
+			"/accel/int/h.txt", "/accel/int/", "/echo/x", "/accel/accel/int/h.txt", "/secret/pub/deep/d.txt", "/secret/f.txt", "/strip/secret/pub/deep/d.txt"},
 		"api": {"/api", "/api/", "/api/x", "/api/../api/y", "/API/z"},
 	}
 	spell := func(t string) string {
@@ -338,7 +623,25 @@ func c03Gen(r *Rand, tier string) []interface{} {
 		if i := strings.Index(t, "?"); i >= 0 {
 			t, q = t[:i], t[i:]
 		}
-		switch r.Intn(12) {
+		switch r.Intn(19) {
+		case 12:
+			if i := strings.LastIndex(t, "/"); i > 0 {
+				t = t[:i] + "%2F" + t[i+1:]
+			}
+		case 13:
+			t = "/%2E%2E" + t
+		case 14:
+			t = strings.Replace(t, "/secret", "/secret/../secret", 1)
+		case 15:
+			if i := strings.LastIndex(t, "/"); i > 0 && i < len(t)-1 {
+				t = t[:i] + "/./" + t[i+1:]
+			}
+		case 16:
+			t = strings.Replace(t, "int", "%69nt", 1)
+		case 17:
+			t = strings.Replace(t, "/int", "/Int", 1)
+		case 18:
+			t = "/pub/%2e%2e/." + t
 		case 0:
 			t = "/." + t
 		case 1:
@@ -362,7 +665,11 @@ func c03Gen(r *Rand, tier string) []interface{} {
 		}
 		return t + q
 	}
-	protNames := []string{"auth-dir", "auth-dir-ex", "auth-slash", "internal", "auth-file", "auth-index", "auth-api", "auth-two"}
+	protNames := []string{"auth-dir", "auth-dir-ex", "auth-slash", "internal", "auth-file", "auth-index", "auth-api", "auth-two",
+		"auth-nest3", "auth-nest3r", "auth-overlap", "auth-int", "auth-int", "auth-nest3", "auth-gz"}
+	credKinds := []string{"none", "none", "wrong", "right", "right", "right1", "right2"}
+	methods := []string{"GET", "GET", "GET", "HEAD", "POST", "OPTIONS"}
+	xreqs := []string{"", "", "", "", "", "/int/h.txt", "/secret/f.txt", "/secret/pub/deep/d.txt"}
 	for i := 0; i < nS; {
 		prot := protNames[r.Intn(len(protNames))]
 		var ex []string
@@ -378,18 +685,77 @@ func c03Gen(r *Rand, tier string) []interface{} {
 		// browse twice is a config error
 		ex = c03FilterBrowse(ex)
 		group := "secret"
-		if prot == "internal" {
+		if prot == "internal" || (prot == "auth-int" && r.Chance(50)) {
 			group = "int"
 		} else if prot == "auth-api" {
 			group = "api"
 		}
 		for k := 0; k < 12; k++ {
 			in := &c03In{Kind: "site", Prot: prot, Extras: ex, Target: spell(r.Pick(targetsFor[group])),
-				Method: r.Pick([]string{"GET", "GET", "GET", "HEAD", "POST", "OPTIONS"}), Creds: r.Pick([]string{"none", "none", "wrong", "right"}),
-				AE: r.Pick([]string{"", "gzip", "gzip, br", "zstd"})}
+				Method: r.Pick(methods), Creds: r.Pick(credKinds),
+				AE: r.Pick([]string{"", "gzip", "gzip, br", "zstd"}), XReq: r.Pick(xreqs)}
 			out = append(out, in)
 			i++
 		}
+	}
+	// canonical-order chains: rewriters x protection x proxy-to-recording-backend
+	rewriters := []string{
+		"rewrite /alias /secret/f.txt",
+		"rewrite /alias2 secret/f.txt",
+		"rewrite /ialias /int/h.txt",
+		"rewrite {\n regexp ^/re/(.*)$\n to /secret/{1}\n}",
+		"rewrite {\n regexp ^/strip/(.*)$\n to /{1}\n}",
+		"rewrite {\n regexp ^/up/(.*)$\n to /pub/../{1}\n}",
+		"rewrite {\n regexp ^/two/([^/]*)/(.*)$\n to /{2}/{1}\n}",
+		"tryfiles {path} {path}.txt /pub/a.txt",
+		"ext .txt .html",
+		"gzip",
+		"header / X-Test 1",
+	}
+	chainTargets := []string{"/alias", "/alias2", "/ialias", "/re/f.txt", "/re/pub/open.txt", "/re/pub/deep/x/y.txt", "/strip/secret/f.txt", "/strip/int/h.txt",
+		"/strip/secret/pub/deep/d.txt", "/up/secret/f.txt", "/up/int/x", "/two/f.txt/secret", "/two/h.txt/int", "/secret/f", "/secret/page", "/secret/f.txt",
+		"/secret/pub/open.txt", "/secret/pub/deep/d.txt", "/secret/pub/deep/x/y.txt", "/secret/sub/g.md", "/int/h.txt", "/INT/h.txt", "/pub/a.txt", "/api/x",
+		"/accel/int/h.txt", "/accel/secret/f.txt", "/accel/accel/int/h.txt", "/accel/accel/accel/accel/pub/a.txt", "/loop", "/echo/x", "/accel/loop", "/accel/echo/y", "/nothing"}
+	chainProts := []string{"auth-dir-ex", "auth-two", "auth-nest3", "auth-nest3r", "auth-overlap", "auth-int", "auth-int", "internal", "auth-slash"}
+	chainCreds := []string{"none", "none", "none", "wrong", "right", "right1", "right2"}
+	for i := 0; i < nC; {
+		prot := r.Pick(chainProts)
+		var ex []string
+		for _, e := range rewriters {
+			if r.Chance(35) {
+				ex = append(ex, e)
+			}
+		}
+		for k := 0; k < 10; k++ {
+			out = append(out, &c03In{Kind: "chain", Prot: prot, Extras: ex, Target: spell(r.Pick(chainTargets)),
+				Method: r.Pick(methods), Creds: r.Pick(chainCreds), XReq: r.Pick(xreqs)})
+			i++
+		}
+	}
+	// internal alone over a scripted inner handler
+	apaths := []string{"/a", "/b", "/int/h", "/a/x", "/INT/x", "/c/../int/y", "/loop", "/e", "/f/", "/b/../a", "/e/e", "/a/"}
+	avals := []string{"/a", "/b", "/int/h", "/loop", "/e", "ECHO", "int/h", "/f/"}
+	for i := 0; i < nX; i++ {
+		in := &c03In{Kind: "accel", P: r.Pick(apaths), Paths: []string{"/int"}}
+		if r.Chance(30) {
+			in.Paths = append(in.Paths, r.Pick([]string{"/b", "/f/", "/e"}))
+		}
+		for k := r.Intn(5); k > 0; k-- {
+			in.Script = append(in.Script, [2]string{r.Pick(apaths), r.Pick(avals)})
+		}
+		if r.Chance(25) {
+			in.Script = append(in.Script, [2]string{"/loop", "/loop"})
+		}
+		if r.Chance(40) {
+			in.Script = append(in.Script, [2]string{in.P, r.Pick(avals)})
+		}
+		if r.Chance(35) {
+			in.XReq = r.Pick(apaths)
+		}
+		if r.Chance(15) {
+			in.W0 = r.Pick(apaths)
+		}
+		out = append(out, in)
 	}
 	return out
 }
@@ -424,7 +790,7 @@ func c03FilterBrowse(xs []string) []string {
 func init() {
 	register(&Property{
 		ID: "C03", Imports: "V.Lib V.GoPath V.C03_Model", Judge: "judge",
-		Rule: "direct Path.Matches calls on generated spellings/bases; basicauth rules built by the real directive parser (resources, excludes, which credentials the request carries) and internal; full in-process sites (protection directive x random subset of rewrite/tryfiles/ext/index/gzip/browse+archives/templates/markdown/proxy/header/errors/mime) queried over raw request lines with path spellings x methods x credentials x Accept-Encoding, decoded bodies (gunzip/unzip/untar) searched for planted tokens; non-trivial = matcher true / 401 issued / site answered something other than 404",
+		Rule: "source scan for assignments to a request's URL path; internalsrv.Internal over scripted inner handlers (X-Accel-Redirect response/request headers, loops); canonical-order sites (rewriters incl. prefix-stripping and capture rewrites, tryfiles, ext x 1-3 basicauth rules with nested excludes x internal x proxy to a recording backend that can answer X-Accel-Redirect) compared with the chain model on the final path measured on the unprotected twin site; direct Path.Matches calls on generated spellings/bases; basicauth rules built by the real directive parser (resources, excludes, which credentials the request carries) and internal; full in-process sites (protection directive x random subset of rewrite/tryfiles/ext/index/gzip/browse+archives/templates/markdown/proxy/header/errors/mime) queried over raw request lines with path spellings x methods x credentials x Accept-Encoding, decoded bodies (gunzip/unzip/untar) searched for planted tokens; non-trivial = matcher true / 401 issued / site answered something other than 404",
 		Gen:    c03Gen,
 		Decode: func(raw json.RawMessage) (interface{}, error) { in := &c03In{}; return in, json.Unmarshal(raw, in) },
 		Run:    c03Run,
